@@ -522,10 +522,8 @@ def campaign_bookkeeping(ck, n: int) -> None:
         camp.distinct.add(hash((semgen.canon(doc), style, json.dumps(gopts, sort_keys=True))))
         # (a) hypothesis "every use of the dropped model takes part"
         for u, d, nested in outsiders:
-            if nested and "container_enum" in required_only_kinds(doc):
-                # known finding D46 (the nested type of a re-declared container member has no `parent`): judged by the oracle
-                camp.hit("use of a dropped enum that does not take part: nested in a re-declared container member (D46)")
-                continue
+            # (repaired by 762c5b6: the nested type of a re-declared container member used to have no `parent` — former D46 —
+            #  and is now held to the same hypothesis as every other use)
             SUSPECTS.append((doc, style))
             ck.disagree(camp, {**inp, "stage": "reuse_model"}, "every use of the dropped model belongs to a model of the module (takes part)",
                         f"the use in class {before['owner'].get(u)} of {o.store.ref_paths[d]} is a child of the reference but its owner is not found")
